@@ -77,6 +77,9 @@ pub struct LagReport {
     /// first violation: (doc index k, delivered bytes, written bytes, required bytes)
     pub violation: Option<(u64, u64, u64, u64)>,
     pub docs_delivered: u64,
+    /// live heap of the translating thread, sampled at the read() calls at which
+    /// 1/10, 2/10, ... 9/10 of the stream's documents had been delivered
+    pub live_deciles: Vec<isize>,
 }
 
 /// Generates the stream lazily from a pool and checks the lag invariant at
@@ -100,6 +103,7 @@ struct PacketReader<'a> {
     clock: Rc<RefCell<Clock>>,
     report: Rc<RefCell<LagReport>>,
     out_cum_by_doc: VecDeque<u64>,
+    total_docs: u64,
 }
 
 impl<'a> PacketReader<'a> {
@@ -158,6 +162,10 @@ impl<'a> PacketReader<'a> {
                 rep.violation = Some((self.docs_required.saturating_sub(1), self.delivered, written, self.required));
             }
             rep.docs_delivered = self.docs_delivered;
+            let k = rep.live_deciles.len() as u64 + 1;
+            if k <= 9 && self.docs_delivered >= self.total_docs * k / 10 {
+                rep.live_deciles.push(crate::alloc::live());
+            }
         }
         if buf.is_empty() {
             return Ok(0);
@@ -295,6 +303,21 @@ fn make_pool(spec: &StreamSpec) -> Vec<(Vec<u8>, u64)> {
         }
         pool.push((bytes, single.out.len() as u64));
     }
+    if spec.src == Fmt::Yaml && spec.size_class <= 1 {
+        // YAML-only machinery whose per-document resources must be released with the document:
+        // anchors and aliases, tags, directives, explicit document ends, comments, block scalars
+        let feature_docs: [&[u8]; 3] = [
+            b"---\nbase: &b {x: 1, y: [1, 2]}\nagain: *b\nlist: [*b, *b]\nstr: &s \"text\"\nr: *s\n",
+            b"%YAML 1.1\n%TAG !e! tag:example.com,2000:\n---\n# a comment\nt: !!str 12\nu: !!int \"7\"\nblock: |\n  line one\n  line two\nfolded: >-\n  a\n  b\n...\n",
+            b"---\n- &a1 [1, 2, 3]\n- *a1\n- &a2 {k: *a1}\n- *a2\n- *a2\n",
+        ];
+        for b in feature_docs {
+            let single = run_slice(b, Some(Fmt::Yaml), spec.to);
+            if single.verdict.is_ok() {
+                pool.push((b.to_vec(), single.out.len() as u64));
+            }
+        }
+    }
     pool
 }
 
@@ -335,6 +358,7 @@ pub fn run_stream(spec: &StreamSpec) -> Option<StreamResult> {
         clock: clock.clone(),
         report: report.clone(),
         out_cum_by_doc: VecDeque::new(),
+        total_docs: spec.n_docs as u64,
     };
     let writer = CountingWriter(clock.clone());
     let from = if spec.detect { None } else { Some(spec.src.xt()) };
@@ -373,6 +397,10 @@ pub fn run_stream(spec: &StreamSpec) -> Option<StreamResult> {
 pub const MEM_FIXED: isize = 2 << 20;
 pub const MEM_PER_DOC_BYTE: isize = 128;
 pub const MEM_GROWTH_SLACK: isize = 128 << 10;
+pub const LIVE_GROWTH_FIXED: isize = 8 << 10;
+pub const LIVE_GROWTH_PER_DOC_BYTE: isize = 8;
+pub const LIVE_DELTA_FIXED: isize = 512;
+pub const LIVE_DELTA_PER_DOC_BYTE: isize = 2;
 
 pub fn judge(spec: &StreamSpec, acc: &mut Acc) {
     let Some(r) = run_stream(spec) else {
@@ -401,6 +429,23 @@ pub fn judge(spec: &StreamSpec, acc: &mut Acc) {
     if r.peak > bound {
         acc.violation(Violation { sig: format!("memory: peak heap above the per-document bound ({})", spec.src.name()), case: case(), observed: format!("peak live heap {} bytes for a stream of {} documents, largest document {} bytes", r.peak, spec.n_docs, r.largest_doc), expected: format!("<= {} (2 MiB + 128 x largest document)", bound) });
         return;
+    }
+    // live heap at the deciles of the SAME run: a per-document leak shows as growth in EVERY interval
+    // (a one-time step - a buffer that reaches its working size - shows in one interval only)
+    if spec.n_docs >= 1000 && r.lag.live_deciles.len() == 9 {
+        let d = &r.lag.live_deciles;
+        let deltas: Vec<isize> = (4..8).map(|i| d[i + 1] - d[i]).collect(); // 50->60, ..., 80->90 per cent
+        let min_delta = *deltas.iter().min().unwrap();
+        let total: isize = d[8] - d[4];
+        acc.count("live_heap_decile_series_compared");
+        acc.max("max_live_heap_min_decile_delta_bytes", min_delta.max(0) as u64);
+        acc.max("max_live_heap_growth_bytes_50pct_to_90pct", total.max(0) as u64);
+        let per_interval = LIVE_DELTA_FIXED + LIVE_DELTA_PER_DOC_BYTE * r.largest_doc as isize;
+        let overall = LIVE_GROWTH_FIXED + LIVE_GROWTH_PER_DOC_BYTE * r.largest_doc as isize;
+        if min_delta > per_interval && total > overall {
+            acc.violation(Violation { sig: format!("memory: live heap grows steadily while the stream is translated ({}, {})", spec.src.name(), if spec.detect { "detected" } else { "explicit" }), case: case(), observed: format!("live heap at the deciles of the {} documents: {:?}; every interval of the second half grows by more than {} bytes, {} bytes in total; largest document {} bytes", spec.n_docs, d, per_interval, total, r.largest_doc), expected: format!("no steady growth (per interval <= {per_interval}, or in total <= {overall})") });
+            return;
+        }
     }
     // independence from the stream length: the same stream at a tenth of the length
     if spec.n_docs >= 300 {
@@ -449,9 +494,9 @@ pub fn run(ctx: &Ctx) -> i32 {
         acc.sample_every(37, || sp[i].json());
         judge(&sp[i], acc);
     });
-    let rule = format!("{} streams: sources JSON/MessagePack/YAML x targets JSON/MessagePack/YAML x 6 packetisations (one document per read, three per read, half a document, single bytes, 100 KB blocks, random) x explicit/detected x document size classes (tiny, ~1 KiB generated, ~50 KiB, ~300 KiB) x stream lengths up to {} documents, generated on the fly with O(1) harness memory; the lag invariant is evaluated at EVERY read() call; peak live heap measured with a counting allocator per call and compared with the same stream at a tenth of the length; distinct non-trivial = distinct stream specifications", sp.len(), if ctx.thorough() { 300000 } else { 3000 });
+    let rule = format!("{} streams: sources JSON/MessagePack/YAML x targets JSON/MessagePack/YAML x 6 packetisations (one document per read, three per read, half a document, single bytes, 100 KB blocks, random) x explicit/detected x document size classes (tiny, ~1 KiB generated, ~50 KiB, ~300 KiB) x stream lengths up to {} documents, generated on the fly with O(1) harness memory; the lag invariant is evaluated at EVERY read() call; peak live heap measured with a counting allocator per call and compared with the same stream at a tenth of the length; live heap sampled at the deciles of every stream of >= 1000 documents (steady growth over the second half = a per-document leak); distinct non-trivial = distinct stream specifications", sp.len(), if ctx.thorough() { 300000 } else { 3000 });
     ev::finish(
-        Finish { ctx, level: "exploration", rule, assumptions: vec!["memory bound constants: 2 MiB + 128 x largest document; growth slack 128 KiB (measured slack on the pinned tree: < 16 KiB, worst ratio 46 for dense YAML)".into(), "the harness's own allocations during a call are bounded by one packet plus a few queue entries".into()], extra: serde_json::Map::new(), exhaustive: false, min_distinct: 100, must_reach: vec![("read_calls_monitored".into(), 10000), ("length_pairs_compared".into(), 20), ("streams_yaml_detected".into(), 5), ("streams_json_detected".into(), 5), ("streams_msgpack_detected".into(), 5)] },
+        Finish { ctx, level: "exploration", rule, assumptions: vec!["memory bound constants: 2 MiB + 128 x largest document; growth slack 128 KiB (measured slack on the pinned tree: < 16 KiB, worst ratio 46 for dense YAML)".into(), "the harness's own allocations during a call are bounded by one packet plus a few queue entries".into()], extra: serde_json::Map::new(), exhaustive: false, min_distinct: 100, must_reach: vec![("read_calls_monitored".into(), 10000), ("length_pairs_compared".into(), 20), ("live_heap_decile_series_compared".into(), 20), ("streams_yaml_detected".into(), 5), ("streams_json_detected".into(), 5), ("streams_msgpack_detected".into(), 5)] },
         acc,
     )
 }
